@@ -22,11 +22,12 @@ RULE = ("api leg: base cooler of resolution 1 (8+4 bp genome) x ALL 2^7 subsets 
         "u bases} once each, multires recognised, each base level reads identically to its source (bins incl. weights, pixels, "
         "indexes, attributes), each derived level == ref_coarsen(base, r/base) for a supplied base dividing r, V on every level. "
         "Non-trivial: >=1 derived level. Distinct by construction.")
-BOUNDS = {"quick": "all subsets at chunksize 1e6, chunksize {1,3} on every 8th subset; schedule deviation bound 1",
-          "thorough": "all subsets x chunksize {1,3,1e6}; 3 base contents; base 3 x all subsets of {3,6,9,12,4}; schedule deviation bound 2"}
+BOUNDS = {"quick": "all subsets at chunksize 1e6, chunksize {1,3} on every 8th subset; schedule deviation bound 1; one injected I/O error at every h5py call of 3 zoomify runs",
+          "thorough": "all subsets x chunksize {1,3,1e6}; 3 base contents; base 3 x all subsets of {3,6,9,12,4}; schedule deviation bound 2; abort leg as in the quick tier"}
 ASSUMPTIONS = ["pixel value columns not requested via `columns` are not expected in the output (documented default: count only)",
-               "with independent base data a derived level must equal the coarsening of SOME supplied base that divides it"]
-EXPECT_CLASSES = {"*": ["zoom:ok", "zoom:refused", "multi-base", "sched", "cli"]}
+               "with independent base data a derived level must equal the coarsening of SOME supplied base that divides it",
+               "abort leg: the recognition clause is read both ways - what an interrupted run leaves behind is either not recognised as a multi-resolution file or is complete"]
+EXPECT_CLASSES = {"*": ["zoom:ok", "zoom:refused", "multi-base", "sched", "cli", "abort", "abort:not-recognised-afterwards"]}
 
 SIZES = [("chr2", 8), ("chr10", 4)]
 TARGETS1 = [1, 2, 3, 4, 6, 8, 12]
@@ -95,6 +96,9 @@ def units(tier):
     # bin counts zoomified one after the other in one process, in every order
     for perm in range(6):
         yield {"leg": "varseq", "perm": perm}
+    for tg, cs in (([2, 4], 10 ** 6), ([2, 4], 3), ([4, 2, 8], 10 ** 6)):
+        for part in range(6):
+            yield {"leg": "abort", "targets": tg, "chunksize": cs, "part": part, "of": 6}
 
 
 def _varseq(R, unit, only):
@@ -195,6 +199,89 @@ def _judge_file(R, inner, out, bases, targets, cols=("count",)):
                     R.mismatch("derived-level!=coarsening-of-base", {**inner, "level": r}, "; ".join(msgs) or "no base divides it")
     except Exception as e:
         R.mismatch("judge-raises:" + type(e).__name__, inner, f"{e!s:.300}")
+
+
+def _abort(R, unit, only):
+    """E4: one zoomify run, then the same run with an injected I/O error at EVERY h5py call (and with a level that does not fit the
+    requested dtype). Whatever is left behind: the source is untouched, and an output that is recognised as a multi-resolution file
+    holds every requested level and the base complete (nothing half-written passes for a zoomified file)."""
+    import cooler
+    from cooler import fileops
+    from vmc.seams.sched import H5Hook
+    tg, cs = unit["targets"], unit["chunksize"]
+    uri = base_uri(1, "full")
+    bins0, pix0 = base_bins(1), base_pix(1, "full")
+    src_before = h5ref.canon(uri.split("::")[0])
+    R.add("states")
+    R.add("traces")
+    out = scratch.fresh(".mcool")
+
+    def call(**kw):
+        cooler.zoomify_cooler(uri, out, list(tg), chunksize=cs, columns=["count", "score"], **kw)
+
+    def leftover(inner, raised):
+        if h5ref.canon(uri.split("::")[0]) != src_before:
+            R.mismatch("source-changed-by-zoomify", inner, "")
+        if not os.path.exists(out):
+            return
+        try:
+            rec = fileops.is_multires_file(out)
+        except Exception as e:
+            R.mismatch("is_multires_file-raises-on-leftover:" + type(e).__name__, inner, f"{e!s:.200}")
+            return
+        if rec:
+            R.cls("abort:recognised-afterwards")
+            _judge_file(R, {**inner, "state": "left behind by an interrupted run and recognised as a multi-resolution file"}, out,
+                        {1: (uri, bins0, pix0)}, tg, ("count", "score"))
+        else:
+            R.cls("abort:not-recognised-afterwards")
+            if not raised:
+                R.mismatch("not-recognised-as-multires", inner, "run completed without error")
+    try:
+        H5Hook.start()
+        try:
+            call()
+        finally:
+            N, log = H5Hook.stop()
+        _judge_file(R, {"k": 0}, out, {1: (uri, bins0, pix0)}, tg, ("count", "score"))
+        for k in range(1 + unit.get("part", 0), N + 1, unit.get("of", 1)):
+            inner = {"k": k, "call": log[k - 1], "N": N}
+            if only is not None and only.get("k") != k:
+                continue
+            R.order = (R.order[0], k)
+            R.ev(1, 1)
+            R.add("transitions")
+            R.add("fault_points")
+            R.cls("abort")
+            scratch.rm(out)
+            raised = False
+            H5Hook.start(fail_at=k)
+            try:
+                call()
+            except Exception:
+                raised = True
+            finally:
+                H5Hook.stop()
+            leftover(inner, raised)
+        # a level that does not fit the requested dtype: levels before it are written, then the run stops
+        for dt in (("int8", "int16") if unit.get("part", 0) == 0 else ()):
+            inner = {"dtypes": dt}
+            if only is not None and only != inner:
+                continue
+            R.ev(1, 1)
+            R.add("transitions")
+            R.cls("abort")
+            scratch.rm(out)
+            raised = False
+            try:
+                call(dtypes={"count": np.dtype(dt)})
+            except Exception:
+                raised = True
+            if raised:
+                R.cls("abort:level-does-not-fit")
+            leftover(inner, raised)
+    finally:
+        scratch.rm(out)
 
 
 def _api(R, unit, tier, only):
@@ -457,5 +544,7 @@ def run(unit, R, tier, only=None):
         _cli(R, unit["k"], only)
     elif leg == "varseq":
         _varseq(R, unit, only)
+    elif leg == "abort":
+        _abort(R, unit, only)
     else:
         raise ValueError(leg)
